@@ -133,9 +133,18 @@ Definition check_iso (c : iso_case) : bool :=
 
 (* ---------------------------------------------------------------- prio: the component table *)
 
+(* pr_impl: component name -> defining template as the table has it (observed through
+   render_component and a one-off call site), by name.
+   pr_sites: for every template T that defines a name N (at whatever priority): (T, N, the
+   definition a call written in T itself ran when T is rendered directly, the same when T is
+   included from another template).
+   pr_oneoff: for each name N, the definition a `render_str` template that defines its own N
+   (marked `__local`) and calls it ran. *)
 Record prio_case := {
   pr_prefixes : list str; pr_tpls : list (str * list str);
-  pr_impl : res (list (str * str)) }.          (* component name -> defining template, by name *)
+  pr_impl : res (list (str * str));
+  pr_sites : list (str * str * str * str);
+  pr_oneoff : list (str * str) }.
 
 Fixpoint ins_pair (x : str * str) (l : list (str * str)) : list (str * str) :=
   match l with
@@ -149,9 +158,40 @@ Definition model_prio (c : prio_case) : res (list (str * str)) :=
   | RErr e => RErr e
   end.
 
+Definition local_name : str := [95; 95; 108; 111; 99; 97; 108]%N.   (* "__local" *)
+
+(* the call-site lookups of the case: (template, name, definition run) for calls written in a
+   defining template, and (name, definition run) for the one-off templates *)
+Definition model_sites (c : prio_case) : res (list (str * str * res str) * list (str * res str)) :=
+  match component_table (pr_prefixes c) (pr_tpls c) with
+  | ROk t =>
+      ROk (flat_map (fun tc => map (fun n => (fst tc, n, lookup_component t (map (fun x => (x, fst tc)) (snd tc)) n))
+                                   (snd tc)) (pr_tpls c),
+           map (fun no => (fst no, lookup_component t [(fst no, local_name)] (fst no))) (pr_oneoff c))
+  | RErr e => RErr e
+  end.
+
+Definition res_str_is (r : res str) (x : str) : bool := match r with ROk y => str_eqb y x | RErr _ => false end.
+
 Definition check_prio (c : prio_case) : bool :=
   res_eqb (list_eqb (fun x y => str_eqb (fst x) (fst y) && str_eqb (snd x) (snd y)))
-          (model_prio c) (pr_impl c).
+          (model_prio c) (pr_impl c) &&
+  match component_table (pr_prefixes c) (pr_tpls c) with
+  | RErr _ => true
+  | ROk t =>
+      (* one observation per (defining template, name), in the order of pr_tpls *)
+      list_eqb (fun (m o : str * str) => str_eqb (fst m) (fst o) && str_eqb (snd m) (snd o))
+               (flat_map (fun tc => map (fun n => (fst tc, n)) (snd tc)) (pr_tpls c))
+               (map (fun o : str * str * str * str => let '(tn, n, _, _) := o in (tn, n)) (pr_sites c)) &&
+      forallb (fun o : str * str * str * str =>
+                 let '(tn, n, direct, included) := o in
+                 let local := match local_get (pr_tpls c) tn with
+                              | Some cs => map (fun x => (x, tn)) cs | None => [] end in
+                 res_str_is (lookup_component t local n) direct &&
+                 res_str_is (lookup_component t local n) included) (pr_sites c) &&
+      forallb (fun no : str * str => res_str_is (lookup_component t [(fst no, local_name)] (fst no)) (snd no))
+              (pr_oneoff c)
+  end.
 
 (* ---------------------------------------------------------------- depth: nesting paths *)
 
